@@ -429,14 +429,28 @@ class Check(object):
             'known_findings_hit': [k['what'] for k, _ in self.known_hits],
             'failed_obligations': [f[0] for f in failed][:50],
         }
+        # measured counts: evaluations = obligations generated + bounded
+        # cases run; distinct_nontrivial = obligations that are NOT settled
+        # by the simplifier, counted once per distinct SMT text, + the
+        # distinct non-trivial bounded cases the native layers counted
         ev = sum(b.get('evaluations', 0) for b in self.bounded)
         dn = sum(b.get('distinct_nontrivial', 0) for b in self.bounded)
-        cov['evaluations'] = max(ev, n_obl, 1)
-        cov['distinct_nontrivial'] = max(dn, discharged, 2) \
-            if (dn or discharged >= 2) else 2
-        cov['rule'] = rule or ('obligations: one per (function, path, '
-                               'clause) after de-duplication; bounded cases '
-                               'as described in bounded_standins')
+        texts = set()
+        for ob in self.obligations:
+            t = getattr(ob, 'text', None)
+            if t:
+                texts.add(smt.sha(t))
+        nontriv = len(texts) + len([e for e in self.extra_obligations])
+        cov['evaluations'] = n_obl + ev
+        cov['distinct_nontrivial'] = nontriv + dn
+        cov['distinct_nontrivial_obligations'] = nontriv
+        cov['distinct_nontrivial_bounded_cases'] = dn
+        cov['rule'] = rule or (
+            'obligations: one per (function, path, clause); an obligation '
+            'is non-trivial when the simplifier alone does not settle it, '
+            'distinct when its SMT text is; bounded cases: generated as '
+            'described in bounded_standins, distinct / non-trivial as '
+            'counted by the native layer (hash of the generated input)')
         if extra_cov:
             cov.update(extra_cov)
         evidence = {
@@ -446,8 +460,12 @@ class Check(object):
             'wall_s': round(wall, 2),
             'violations': len(self.violations),
         }
-        os.makedirs(os.path.join(ROOT, 'evidence'), exist_ok=True)
-        with open(os.path.join(ROOT, 'evidence', self.pid + '.json'),
+        # (VERIF_EVIDENCE_DIR: experiments on scratch copies of the
+        # repository must not overwrite the evidence of the real tree)
+        evdir = os.environ.get('VERIF_EVIDENCE_DIR') or os.path.join(
+            ROOT, 'evidence')
+        os.makedirs(evdir, exist_ok=True)
+        with open(os.path.join(evdir, self.pid + '.json'),
                   'w') as f:
             json.dump(evidence, f, indent=1, default=repr)
         print('%s: %d/%d obligations discharged, %d functions, level=%s, '
